@@ -615,6 +615,7 @@ pub mod stdlib {
                 parameters: &mut dyn Parameters,
             ) -> Result<Value, ExecutionError> {
                 let list = parameters.param()?.into_list()?;
+                parameters.finish()?;
                 Ok(list.is_empty().into())
             }
         }
@@ -655,6 +656,7 @@ pub mod stdlib {
                 parameters: &mut dyn Parameters,
             ) -> Result<Value, ExecutionError> {
                 let list = parameters.param()?.into_list()?;
+                parameters.finish()?;
                 Ok((list.len() as u32).into())
             }
         }
